@@ -399,7 +399,7 @@ SYN = {'conjugate': 'conj', 'deg2rad': 'radians', 'rad2deg': 'degrees', 'phase':
        'fabs': 'abs', 'float64': 'float', 'complex128': 'float', 'identity': 'eye', 'rint': 'round', 'around': 'round', 'round_': 'round', 'remainder': 'mod'}
 _NP_BINOPS = {'multiply': ast.Mult, 'add': ast.Add, 'subtract': ast.Sub, 'divide': ast.Div, 'true_divide': ast.Div, 'matmul': ast.MatMult, 'dot': ast.MatMult}
 REAL_HEADS = {'abs', 'real', 'imag', 'angle', 'floor', 'ceil', 'round', 'mod', 'num'}
-MAXDEPTH = 7
+MAXDEPTH = 10
 
 
 class Evaluator:
@@ -819,6 +819,7 @@ class Evaluator:
             return r if isinstance(op, ast.In) else s.negate(r)
         if isinstance(op, (ast.Is, ast.IsNot)):
             if b is None and isinstance(a, Opq) and a.k and a.k[0] == 'exc': return isinstance(op, ast.IsNot)
+            if b is None and isinstance(a, Poly) and s.self_class is not None and a.as_atom() == s.self_atom: return isinstance(op, ast.IsNot)     # the object itself is never None
             if b is None and not isinstance(a, (Opq,)) and not (isinstance(a, Poly) and not a.is_const()):
                 return (a is None) == isinstance(op, ast.Is)
             sa, sb = _sentinel(a), _sentinel(b)
@@ -1107,6 +1108,63 @@ class Evaluator:
         v = s.ev(e.value, env, mod, depth)
         return s.getattr(v, e.attr, mod, depth)
 
+    def _keyed_item_attr(s, v, attr, mod, depth):
+        """{x.a: x for x in xs}[k].a is k (when the lookup succeeds at all): the attribute a table is keyed by, read from the item found under k.
+        Also for self.<field>[k].a when the declared class of the field looks its items up in such a table"""
+        at = v.as_atom()
+        if not (isinstance(at, tuple) and len(at) == 3 and at[0] == '[]'): return None
+        base_k, key_k = at[1], at[2]
+        def keyed_by(ck):
+            # ('comp', 'dict', ('tuple', (K, V)), gens) with V the element and K its attribute `attr`
+            if not (isinstance(ck, tuple) and len(ck) == 4 and ck[:2] == ('comp', 'dict') and isinstance(ck[2], tuple) and ck[2][:1] == ('tuple',) and len(ck[2][1]) == 2): return False
+            K_, V_ = ck[2][1]
+            vat = term_from_key(V_); kat = term_from_key(K_)
+            if not (isinstance(vat, Poly) and isinstance(kat, Poly)): return False
+            va_, ka_ = vat.as_atom(), kat.as_atom()
+            return isinstance(va_, tuple) and va_[:1] == ('β',) and ka_ == ('.', va_, attr)
+        if keyed_by(base_k): return term_from_key(key_k)
+        if isinstance(base_k, tuple):
+            if base_k[:1] == ('poly',):
+                b_ = term_from_key(base_k)
+                ba_ = b_.as_atom() if isinstance(b_, Poly) else None
+            else: ba_ = base_k
+            if isinstance(ba_, tuple) and len(ba_) == 3 and ba_[0] == '.' and ba_[1] == 'self' and s.self_class is not None:
+                cache = s.__dict__.setdefault('_keyed_fields', {})
+                ck_ = (id(s.self_class[1]), ba_[2], attr)
+                if ck_ not in cache:
+                    cache[ck_] = False
+                    mem = s.prog.find_member(s.self_class[0], s.self_class[1], ba_[2])
+                    ann = getattr(mem[1], 'annotation', None) if mem else None
+                    r = s.prog.resolve_expr(mem[0], ann) if isinstance(ann, (ast.Name, ast.Attribute)) else None
+                    if r and r[0] == 'class':
+                        gi = s.prog.find_member(r[1], r[2], '__getitem__')
+                        if gi and isinstance(gi[1], ast.FunctionDef):
+                            e2 = Evaluator(s.prog); e2.self_class = (r[1], r[2])
+                            t2 = e2.call_fn(gi[1], gi[0], [Poly.atom('self'), Poly.atom('key')], {}, {'__parent__': None}, 1)
+                            a2 = t2.as_atom() if isinstance(t2, Poly) else None
+                            if isinstance(a2, tuple) and len(a2) == 3 and a2[0] == '[]' and a2[2] == tkey(Poly.atom('key')) and keyed_by(a2[1]): cache[ck_] = True
+                if cache[ck_]: return term_from_key(key_k)
+        return None
+
+    def unique_private_member(s, name):
+        """(module, node) of the private member `name` when exactly one class of the package declares it (method, property or field), else None"""
+        if not (name.startswith('_') and not name.startswith('__')): return None
+        cache = s.prog.__dict__.setdefault('_unique_private', {})
+        if name not in cache:
+            hits = []
+            for m_ in s.prog.modules.values():
+                for c_ in ast.walk(m_.tree):
+                    if not isinstance(c_, ast.ClassDef): continue
+                    for n_ in c_.body:
+                        if isinstance(n_, ast.FunctionDef) and n_.name == name: hits.append((m_, n_))
+                        elif isinstance(n_, ast.AnnAssign) and isinstance(n_.target, ast.Name) and n_.target.id == name: hits.append((m_, n_))
+                        elif isinstance(n_, ast.Assign) and any(isinstance(t_, ast.Name) and t_.id == name for t_ in n_.targets): hits.append((m_, n_))
+                    # attributes set on self in methods count as declarations, too
+                    for n_ in ast.walk(c_):
+                        if isinstance(n_, ast.Attribute) and isinstance(n_.ctx, ast.Store) and n_.attr == name and not any(h_[1] is n_ for h_ in hits): hits.append((m_, n_))
+            cache[name] = hits[0] if len(hits) == 1 else None
+        return cache[name]
+
     def getattr(s, v, attr, mod, depth):
         if isinstance(v, Cond): return Cond(v.g, s.getattr(v.a, attr, mod, depth), s.getattr(v.b, attr, mod, depth))
         if isinstance(v, list) and attr in ('real', 'imag') and not any(isinstance(x, (list, tuple, dict)) for x in v):
@@ -1116,6 +1174,13 @@ class Evaluator:
             mm_, fn_ = s.atom_methods[(v.as_atom(), attr)]
             if 'property' in s.prog.decorators(fn_):          # a declared property of a typed atom is its body over the atom
                 return s.call_fn(fn_, mm_, [v], {}, {'__parent__': None}, depth + 1)
+        if isinstance(v, Poly) and depth < s.depth_limit:
+            ka_ = s._keyed_item_attr(v, attr, mod, depth)
+            if ka_ is not None: return ka_
+        if isinstance(v, Poly) and attr.startswith('_') and v.as_atom() is not None and depth < s.depth_limit:
+            um_ = s.unique_private_member(attr)
+            if um_ is not None and isinstance(um_[1], ast.FunctionDef) and s.prog.is_property(um_[1]):
+                return s.call_fn(um_[1], um_[0], [v], {}, {'__parent__': None}, depth + 1)          # a private property only one class declares
         if isinstance(v, Ref):
             if v.kind == 'module':
                 r = s.prog.resolve_expr(v.mod, ast.Name(id=attr, ctx=ast.Load()))
@@ -1470,6 +1535,11 @@ class Evaluator:
         if s.atom_methods and isinstance(recv, Poly) and (recv.as_atom(), attr) in s.atom_methods and depth < s.depth_limit:
             mm_, fn_ = s.atom_methods[(recv.as_atom(), attr)]
             return s.call_fn(fn_, mm_, [recv] + list(args), kw, {'__parent__': None}, depth + 1)
+        if isinstance(recv, Poly) and recv.as_atom() is not None and depth < s.depth_limit:
+            um_ = s.unique_private_member(attr)
+            if um_ is not None and isinstance(um_[1], ast.FunctionDef) and not s.prog.is_property(um_[1]) and not any(d_ in ('staticmethod', 'classmethod') or 'abstractmethod' in d_ for d_ in s.prog.decorators(um_[1])):
+                # a private helper method whose name only ONE class of the package declares: the object is of that class
+                return s.call_fn(um_[1], um_[0], [recv] + list(args), kw, {'__parent__': None}, depth + 1)
         if isinstance(recv, Rec):
             fv = s.getattr(recv, attr, mod, depth)
             if isinstance(fv, Closure): return s.apply(fv, args, kw, mod, depth, node)
@@ -1655,6 +1725,8 @@ class Evaluator:
             return Opq('exc', name, *args)              # an exception object (never None, never false)
         if name == 'str' and len(args) == 1 and (isinstance(a, (Rec, str, Cond)) or (isinstance(a, Opq) and a.k and a.k[0] in ('strcat', 'fmt'))):
             return s.to_str(a, '', -1, mod, depth)
+        if name in ('float', 'int') and len(args) == 1 and (isinstance(a, bool) or _is_boolterm(a)):
+            return s.mkcond(s.truth(a), Poly.const(1), Poly.const(0))          # the number of a truth value
         if name in ('float', 'str', 'int') and len(args) == 1:
             if name == 'int':
                 c = a.real_const() if isinstance(a, Poly) else None
@@ -1759,6 +1831,8 @@ class Evaluator:
             while isinstance(a_, Opq) and a_.k and a_.k[0] in ('list', 'keys', 'tuple', 'iter') and len(a_.k) == 2 and not (name in ('sorted', 'set') and a_.k[0] != 'keys'):
                 a_ = a_.k[1]        # min(d.keys()) == min(list(d)) == min(d)
             args = [a_]
+        if name in ('any', 'all') and len(args) == 1 and not kw and isinstance(args[0], (list, tuple)) and len(args[0]) <= 24:
+            return s.mkbool('or' if name == 'any' else 'and', [s.truth(x_) for x_ in args[0]])          # written out over the concrete items
         if name == 'zip' and len(args) == 2 and not kw:
             # zip(L, itertools.count())  ==  ((x, i) for i, x in enumerate(L))
             def is_count(v_):
@@ -2047,6 +2121,16 @@ class Evaluator:
                 s.raises.append({'guard': True, 'polarity': False, 'exc': s.last_raise, 'pc': tuple(s._pc)})          # a raise reached on this path
                 if s._try_depth > 0 and st.exc is not None: raise Raised(s.last_raise)
                 return RAISE
+            if isinstance(st, ast.For) and not st.orelse and any(isinstance(n, ast.Return) for n in ast.walk(st)) \
+                    and not any(isinstance(n, (ast.Break, ast.Continue)) for n in ast.walk(st)):
+                # a loop over a concrete short sequence that may return from inside: written out item by item, followed by what comes after the loop
+                it_ = _iter_view(s.ev(st.iter, env, mod, depth))
+                if isinstance(it_, (list, tuple)) and len(it_) <= 8:
+                    unrolled = []
+                    for item_ in it_:
+                        unrolled.append(ast.copy_location(ast.Assign(targets=[st.target], value=_TermNode(item_)), st))
+                        unrolled += st.body
+                    return s.block(unrolled + rest, env, mod, depth)
             if isinstance(st, ast.Continue): return FALL
             if isinstance(st, ast.Break):
                 if s._build is not None: s._build['ok'] = False
@@ -2805,6 +2889,16 @@ def _sentinel(v):
 
 
 def _match_as_ifs(st):
+    if isinstance(st.subject, ast.NamedExpr) and isinstance(st.subject.target, ast.Name):
+        # match (x := subject): the subject is evaluated and bound once, then matched
+        inner = ast.copy_location(ast.Match(subject=ast.copy_location(ast.Name(id=st.subject.target.id, ctx=ast.Load()), st), cases=st.cases), st)
+        chain = _match_as_ifs_(inner)
+        if chain is None: return None
+        return [ast.fix_missing_locations(ast.copy_location(ast.Assign(targets=[ast.Name(id=st.subject.target.id, ctx=ast.Store())], value=st.subject.value), st))] + chain
+    return _match_as_ifs_(st)
+
+
+def _match_as_ifs_(st):
     """match subject: case <literal | literal | ...>: ...  case _: ...   as an if / elif chain (None for structural patterns)"""
     def test(pat):
         if isinstance(pat, ast.MatchValue): return ast.Compare(left=st.subject, ops=[ast.Eq()], comparators=[pat.value])
